@@ -457,6 +457,10 @@ def leaf_heter(out):
                 # where does the tag come from?
                 via = [qual(n) for n in walk(ks[0]) if n.get('kind') == 'CXXMemberCallExpr' and call_name(n) == 'get']
                 tag_via_base = bool(via) and all(v.endswith('::QueuedItemBase') for v in via)
+                if not via:
+                    # a local reference to the base view declared earlier in the loop body
+                    refs = [qual(n) for n in walk(ks[0]) if n.get('kind') == 'DeclRefExpr' and 'QueuedItem' in qual(n)]
+                    tag_via_base = bool(refs) and all(re.search(r'::QueuedItemBase( &)?$', r.replace('const ', '')) for r in refs)
                 tag_via_typed_var = any(n.get('kind') == 'DeclRefExpr' and '::QueuedItem<' in qual(n) for n in walk(ks[0]))
                 if not tag_via_base and not tag_via_typed_var:
                     raise Untranslatable('doProcessIf: cannot tell how callableIndex is read')
